@@ -170,6 +170,13 @@ def run(ctx):
             names = {fd.blocks[x].term.j.get("callee_name") for x in reg if fd.blocks[x].term.k == "call"}
             stat_fields = {"len", "nlink", "ino", "uid", "gid", "dev", "blocks", "mode", "size"} & names
             ok = must <= names and not (forbid & names) and (not (must & {"len", "nlink", "ino", "uid", "gid"}) or stat_fields == (must & stat_fields))
+            # a status-record field must be read from the record itself (std::fs::Metadata), not from a look-alike accessor
+            # (walkdir's d_ino, a cached copy, ...): the follow mode selects the record, and only the record is authoritative
+            for x in reg:
+                tt = fd.blocks[x].term
+                if tt.k == "call" and tt.j.get("callee_name") in (must & {"len", "nlink", "ino", "uid", "gid"}):
+                    if "std::fs::Metadata" not in (tt.j.get("callee_inst") or tt.callee or ""):
+                        ok = False
             ctx.ob("R2", "accessor:%s" % var, ok, "directive %s reads %s; oracle: %s and none of %s" % (var, sorted(names & (must | forbid | stat_fields)), sorted(must), sorted(forbid)), fn=fd, where=prim.site(fd, tgt), how="variant dispatch table")
         # records come through WalkEntry::metadata of this entry (the `meta` closure)
         meta_cl = [c for c in prog.closures_of(fd)]
@@ -228,25 +235,70 @@ def run(ctx):
         # %y / %Y
         if "Type" in regions:
             tgt, reg = regions["Type"]
-            g = C.G(prim.event_graph(fd, lambda t: ({"path_is_symlink": "is_link", "format_non_link_file_type": "letter", "file_type": "entry_type", "metadata": "stat"}.get(t.j.get("callee_name")) if fd.dominates(tgt, _bb_of(fd, t)) else None)))
-            il = g.nodes("is_link")
-            ok = len(il) == 1
+            def in_reg(t):
+                return _bb_of(fd, t) in reg
+            def gdesc(b):
+                """guards inside the Type arm dominating block b: list of (what, bool)"""
+                out = []
+                for gd in prim.dominating_guards(fd, b):
+                    if gd["bb"] not in reg or gd["bool"] is None:
+                        continue
+                    pr = gd["pred"].strip()
+                    names = [c.a["name"] for c in pr.call_nodes()]
+                    if any(y.k == "variant" and str(y.a) == "Type" for y in pr.walk()) and not names:
+                        out.append(("follow_links", gd["bool"]))
+                    elif names == ["path_is_symlink"]:
+                        out.append(("is_link", gd["bool"]))
+                    elif names[:2] == ["is_symlink", "file_type"] and any(c.a["callee"] == E + "WalkEntry::file_type" for c in pr.call_nodes()) and any(x.k == "arg" and x.a["name"] == "file_info" for x in pr.walk()):
+                        out.append(("entry_type_is_link", gd["bool"]))
+                    elif set(names) <= {"is_not_found", "is_loop", "map_err", "metadata", "path"} and names:
+                        out.append(("stat_error:" + names[0], gd["bool"]))
+                    else:
+                        out.append(("other:" + pr.fmt()[:60], gd["bool"]))
+                return sorted(set(out))
+            stat = [(b, t) for b, t in fd.calls() if b in reg and (t.callee or "") == "std::path::Path::metadata"]
+            ok = len(stat) == 1
+            desc = "?"
             if ok:
-                nl = [C.base(x) for x in g.succ(il[0], "0")]
-                ok = nl == ["entry_type"] and all(C.base(y) == "letter" for x in g.succ(il[0], "0") for y in g.succ(x))
-            ctx.ob("R2", "%y-non-link=entry-type", ok, "for an entry that is not a link %%y/%%Y print the letter of the entry's (follow-aware) file_type(); events: %s" % g.fmt()[:400], fn=fd, where=prim.site(fd, tgt), how="event graph")
-            # the link branch: follow_links false => 'l'; true => stat of the path
+                gs_ = gdesc(stat[0][0])
+                desc = str(gs_)
+                po = prim.origin_of_operand(fd, stat[0][1].args[0])
+                ok = gs_ == [("follow_links", True), ("is_link", True)] and [c.a["callee"] for c in po.call_nodes()] == [E + "WalkEntry::path"]
+            ctx.ob("R2", "%Y-stats-links-only", ok, "the stat() of the path in the type directive runs under %s; oracle: exactly when the directive follows links (%%Y) and the path is a link" % desc, fn=fd, where=prim.site(fd, tgt), how="dominating guards")
             consts = []
             for x in reg:
-                for s in fd.blocks[x].stmts:
-                    if s.rv is not None and s.rv.k == "use" and s.rv.ops[0].kind == "const" and s.rv.ops[0].const.get("k") == "char":
-                        fl = None
-                        for gd in prim.dominating_guards(fd, x):
-                            pr = gd["pred"].strip()
-                            if gd["bb"] in reg and gd["bool"] is not None and any(y.k == "variant" and str(y.a) == "Type" for y in pr.walk()):
-                                fl = gd["bool"]
-                        consts.append((s.rv.ops[0].const_value(), fl))
-            ctx.ob("R2", "%y-link-letter", ("l", False) in consts and not any(c == "l" and fl is not False for c, fl in consts), "type letters written as constants with their follow flag: %s; oracle: 'l' exactly when the directive does not follow links (%%y)" % consts, fn=fd, where=prim.site(fd, tgt), how="constants + dominating guard")
+                for st_ in fd.blocks[x].stmts:
+                    if st_.rv is not None and st_.rv.k == "use" and st_.rv.ops[0].kind == "const" and st_.rv.ops[0].const.get("k") == "char":
+                        consts.append((st_.rv.ops[0].const_value(), tuple(g_ for g_ in gdesc(x) if not g_[0].startswith("stat_error"))))
+            want_l = ("l", (("entry_type_is_link", True),))
+            okc = want_l in consts and all((c == "l") == (gs_ == want_l[1]) and (c == "l" or gs_ == (("follow_links", True), ("is_link", True))) for c, gs_ in consts)
+            ctx.ob("R2", "%y-link-letter", okc, "type letters written as constants with their conditions: %s; oracle: 'l' exactly when the entry's follow-aware file_type() is a link (what -type l tests), N/L/? only for a failed stat of %%Y" % consts, fn=fd, where=prim.site(fd, tgt), how="constants + dominating guards")
+            letters = [(b, t) for b, t in fd.calls() if b in reg and t.callee == P + "format_non_link_file_type"]
+            kinds = []
+            for b, t in letters:
+                ao = prim.origin_of_operand(fd, t.args[0])
+                cs = [c.a["callee"] for c in ao.call_nodes()]
+                gs_ = tuple(g_ for g_ in gdesc(b) if not g_[0].startswith("stat_error"))
+                if cs == [E + "WalkEntry::file_type"] and any(x.k == "arg" and x.a["name"] == "file_info" for x in ao.walk()):
+                    kinds.append(("entry", gs_))
+                elif "std::path::Path::metadata" in cs and "std::fs::Metadata::file_type" in cs:
+                    kinds.append(("stat", gs_))
+                else:
+                    kinds.append(("other:" + ao.fmt()[:80], gs_))
+            ok = sorted(kinds) == sorted([("entry", (("entry_type_is_link", False),)), ("stat", (("follow_links", True), ("is_link", True)))])
+            ctx.ob("R2", "%y-non-link=entry-type", ok, "letters computed from a file type, with their conditions: %s; oracle: the entry's follow-aware file_type() (the value -type compares) when it is not a link; the stat()ed type only on %%Y's link branch" % kinds, fn=fd, where=prim.site(fd, tgt), how="provenance slice + dominating guards")
+            # %Y against -xtype: -xtype inverts the follow decision (lstat when the walk follows); %Y always stat()s a link
+            xm = ctx.prog.fns.get(C.matcher_impl(M + "type_matcher::XtypeMatcher", "matches"))
+            x_consults = xm is not None and any(t.callee == E + "WalkEntry::follow" for b, t in xm.calls())
+            y_consults = any(t.callee == E + "WalkEntry::follow" for b, t in fd.calls() if b in reg)
+            ctx.ob("R2", "%Y-agrees-with-xtype-under-follow", (not x_consults) or y_consults,
+                   "-xtype consults WalkEntry::follow() (%s) to take the opposite record from -type; %%Y consults it: %s — under -L (and -H starting points) `-xtype l` is true for a link to a file while %%Y prints the target's letter" % (x_consults, y_consults),
+                   fn=fd, where=prim.site(fd, tgt), how="sibling agreement (call sites)")
+            # every path through the arm decides through one of the two: the stat branch or the entry-type test
+            sym = [b for b, t in fd.calls() if b in reg and t.callee == E + "FileType::is_symlink"]
+            ends = [b for b, t in fd.calls() if b in reg and t.j.get("callee_name") == "to_string"]
+            ok = bool(sym) and bool(ends) and bool(stat) and prim.must_pass(fd, tgt, ends, [stat[0][0]] + sym)
+            ctx.ob("R2", "%y-decided-by-entry-type", ok, "every path through the type directive passes the entry-type test or %%Y's stat (blocks %s / %s before %s)" % (sym, [b for b, _ in stat], ends), fn=fd, where=prim.site(fd, tgt), how="must-pass-through")
         # ---- R5 %H information flow
         gs = ctx.fn("R5", P + "get_starting_point")
         if gs is not None:
@@ -284,51 +336,116 @@ def run(ctx):
                 to_out = any(x.k == "arg" and x.a["name"] == "out" for x in recv.walk())
                 calls.append((b, fc, to_out))
         outw = [(b, fc) for b, fc, to_out in calls if to_out]
-        ctx.floor("R3", "writes to the output in Printf::print", len(outw), 4)
+        ctx.floor("R3", "writes to the output in Printf::print", len(outw), 2)
         adtj = prog.adts.get(P + "Justify")
         jn = {v["idx"]: v["name"] for v in adtj["variants"]} if adtj else {}
         adtc = prog.adts.get(P + "FormatComponent")
         cn = {v["idx"]: v["name"] for v in adtc["variants"]} if adtc else {}
+
+        def context(b):
+            """(component variant, justify variant, other guards) dominating block b"""
+            comp = just = None
+            other = []
+            for gd in prim.dominating_guards(pp, b):
+                ty = prim.discr_type_of_switch(pp, gd["bb"]) or ""
+                one = len(gd["labels"]) == 1 and gd["labels"][0] != "else"
+                if ty.endswith("printf::FormatComponent") and one:
+                    comp = cn.get(gd["labels"][0])
+                elif ty.endswith("printf::Justify") and one:
+                    just = jn.get(gd["labels"][0])
+                elif gd["bool"] is not None and gd["pred"].fmt().startswith("phi("):
+                    continue        # the bool temporary of a `matches!`, decided by the enum switch above it
+                elif ty.startswith("std::result::Result") and any(c.a["callee"] == P + "format_directive" for c in gd["pred"].call_nodes()):
+                    continue
+                elif ty.startswith("std::option::Option") and any(c.a["name"] == "next" for c in gd["pred"].call_nodes()):
+                    continue
+                else:
+                    other.append(prim.guards_fmt([gd])[:120])
+            return comp, just, other
+
         seen = {}
+        content_bb = None
         for b, fc in outw:
             if fc is None:
                 ctx.ob("R3", "template-decodable", False, "a write! in Printf::print has a template that cannot be decoded", fn=pp, where=prim.site(pp, b))
                 continue
-            # context: component variant, justify variant, width Some/None
-            comp = just = width = None
-            for gd in prim.dominating_guards(pp, b):
-                ty = prim.discr_type_of_switch(pp, gd["bb"]) or ""
-                if ty.endswith("printf::FormatComponent") and len(gd["labels"]) == 1 and gd["labels"][0] != "else":
-                    comp = cn.get(gd["labels"][0])
-                if ty.endswith("printf::Justify") and len(gd["labels"]) == 1 and gd["labels"][0] != "else":
-                    just = jn.get(gd["labels"][0])
-                if ty.startswith("std::option::Option") and "usize" in (prim.place_type(pp, _discr_place(pp, gd["bb"])) or "usize"):
-                    width = (gd["labels"] == [1])
+            comp, just, other = context(b)
             ph = fc.placeholders()
             shape = fc.shape()
-            key = (comp, width, just)
-            seen[key] = shape
+            seen[comp] = shape
+            plain = fc.literal_text() == "" and len(ph) == 1 and ph[0]["plain"] and fc.args[0][0] == "display"
             if comp == "Literal":
-                ok = fc.literal_text() == "" and len(ph) == 1 and ph[0]["plain"] and fc.args[0][0] == "display"
-                ctx.ob("R4", "literal-template", ok, "literal text is written with template %r; oracle `{}` (verbatim, nothing appended)" % shape, fn=pp, where=prim.site(pp, b), how="decoded template")
+                ctx.ob("R4", "literal-template", plain and not other, "literal text is written with template %r under %s; oracle `{}` (verbatim, nothing appended)" % (shape, other), fn=pp, where=prim.site(pp, b), how="decoded template")
             elif comp == "Directive":
-                if width:
-                    want_align = {"Left": "left", "Right": "right"}.get(just)
-                    ok = fc.literal_text() == "" and len(ph) == 1 and ph[0]["align"] == want_align and ph[0]["width_arg"] is not None and ph[0]["precision"] is None and ph[0]["precision_arg"] is None and ph[0].get("fill", " ") == " " and fc.args[ph[0]["index"]][0] == "display"
-                    wsrc = "?"
-                    if ok:
-                        wa = fc.args[ph[0]["width_arg"]][1]
-                        wsrc = wa.fmt() if wa is not None else "?"
-                        ok = wa is not None and any(y.k == "variant" and str(y.a) in ("Directive", "Some") for y in wa.walk())
-                    ctx.ob("R3", "padding:%s" % just, ok, "with a width and justification %s the value is written with template %r (width from %s); oracle `{:%sw$}`: blanks on the %s, width = the directive's minimum width, no precision (never truncated)" % (just, shape, wsrc, "<" if just == "Left" else ">", "right" if just == "Left" else "left"), fn=pp, where=prim.site(pp, b), how="decoded template + dominating guards")
-                else:
-                    ok = fc.literal_text() == "" and len(ph) == 1 and ph[0]["plain"] and fc.args[0][0] == "display"
-                    ctx.ob("R3", "no-width-template", ok, "without a width the value is written with %r; oracle `{}`" % shape, fn=pp, where=prim.site(pp, b), how="decoded template")
+                content_bb = b
+                src = fc.args[0][1]
+                from_value = src is not None and any(c.a["callee"] == P + "format_directive" for c in src.call_nodes())
+                ctx.ob("R3", "value-template", plain and just is None and not other and from_value,
+                       "the directive's value is written with template %r (value %s) under justify=%s, other conditions %s; oracle: `{}` of format_directive's Ok value — no precision, so never truncated — on every path (padding is separate)" % (shape, src.fmt()[:120] if src is not None else "?", just, other),
+                       fn=pp, where=prim.site(pp, b), how="decoded template + dominating guards")
             else:
                 ctx.ob("R3", "unclassified-write", False, "a write to the output in Printf::print is not under a Literal/Directive component arm (component=%s): cannot decide" % comp, fn=pp, where=prim.site(pp, b))
-        need = [("Literal", None, None), ("Directive", True, "Left"), ("Directive", True, "Right"), ("Directive", False, None)]
-        miss = [k for k in need if k not in seen and not (k[0] == "Literal" and any(s[0] == "Literal" for s in seen))]
-        ctx.ob("R3", "all-cases-written", not miss, "cases (component, has width, justification) with a write: %s; missing %s" % (sorted(seen, key=str), miss), fn=pp, how="dominating guards")
+        miss = [k for k in ("Literal", "Directive") if k not in seen]
+        ctx.ob("R3", "all-cases-written", not miss, "component kinds with a write: %s; missing %s" % (sorted(seen, key=str), miss), fn=pp, how="dominating guards")
+        # padding: blanks before the value when right-justified, after it when left-justified, the same amount both ways
+        pads = [(b, t) for b, t in pp.calls() if (t.callee or "").split("::<")[0] == P + "write_padding"]
+        ctx.floor("R3", "padding writes in Printf::print", len(pads), 2)
+        sides = {}
+        for b, t in pads:
+            comp, just, other = context(b)
+            side = None
+            if content_bb is not None:
+                # within one loop iteration (paths cut at the iterator's next())
+                nxt = [x for x, tt in pp.calls() if tt.j.get("callee_name") == "next" and "Iterator" in (tt.j.get("callee_inst") or "")]
+                fwd = content_bb in pp.reach_from([b], avoid=nxt)
+                bwd = b in pp.reach_from([content_bb], avoid=nxt)
+                side = "before" if fwd and not bwd else ("after" if bwd and not fwd else None)
+            sides.setdefault(just, []).append(side)
+            want = {"Right": "before", "Left": "after"}.get(just)
+            recv = prim.origin_of_operand(pp, t.args[0])
+            amt = prim.expand_single_def_vars(pp, prim.origin_of_operand(pp, t.args[1])).strip()
+            okamt = amt.k == "call" and amt.a["name"] == "map_or" and len(amt.kids) == 3
+            cl = None
+            if okamt:
+                w, zero, clo = [k.strip() for k in amt.kids]
+                okamt = any(x.k == "field" and str(x.a) == "width" for x in w.walk()) and any(y.k == "variant" and str(y.a) == "Directive" for y in w.walk()) and zero.k == "const" and zero.a.get("v") == 0
+                cls = [f for f in prog.closures_of(pp)]
+                cl = cls[0] if len(cls) == 1 else None
+                okamt = okamt and cl is not None and clo.k == "agg" and cl.path.split("::")[-1] in str(clo.a)
+            ctx.ob("R3", "padding:%s" % just, comp == "Directive" and want is not None and side == want and not other and okamt and any(x.k == "arg" and x.a["name"] == "out" for x in recv.walk()),
+                   "write_padding(%s, %s) under justify=%s (%s the value; other conditions %s); oracle: to the output, amount = width.map_or(0, |w| w - length of the value, saturating), blanks on the left for Right (default) and on the right for Left ('-')" % (recv.fmt()[:40], amt.fmt()[:160], just, side, other),
+                   fn=pp, where=prim.site(pp, b), how="dominating guards + dominance + provenance slice")
+        ctx.ob("R3", "padding-both-sides", sorted(sides, key=str) == ["Left", "Right"] and all(len(v) == 1 for v in sides.values()), "padding calls by justification: %s; oracle exactly one for Left and one for Right" % sides, fn=pp, how="dominating guards")
+        for cl in prog.closures_of(pp):
+            o = prim.simplify(prim.expand_single_def_vars(cl, prim.origin_of_local(cl, 0))).strip()
+            names = [c.a["name"] for c in o.call_nodes()]
+            ok = o.k == "call" and o.a["name"] == "saturating_sub" and len(o.kids) == 2
+            if ok:
+                a, bq = [k.strip() for k in o.kids]
+                ok = a.k == "arg" and [c.a["name"] for c in bq.call_nodes()][:2] == ["count", "chars"] and not any(x.k == "bin" for x in bq.walk())
+            ctx.ob("R3", "padding-amount", ok, "the padding closure returns %s; oracle: width.saturating_sub(number of characters of the value) — a plain subtraction underflows when the value is longer than the width (the value must then be written whole, unpadded)" % o.fmt()[:200], fn=cl, how="provenance slice")
+        wp = ctx.fn("R3", P + "write_padding")
+        if wp is not None:
+            cps = [(b, t) for b, t in wp.calls() if (t.callee or "").startswith("std::io::copy")]
+            ok = len(cps) == 1
+            desc = "?"
+            if ok:
+                src = prim.origin_of_operand(wp, cps[0][1].args[0])
+                dst = prim.origin_of_operand(wp, cps[0][1].args[1])
+                desc = "copy(%s, %s)" % (src.fmt()[:160], dst.fmt()[:40])
+                names = [c.a["name"] for c in src.call_nodes()]
+                tk = [c for c in src.call_nodes() if c.a["name"] == "take"]
+                rp = [c for c in src.call_nodes() if c.a["name"] == "repeat"]
+                ok = len(tk) == 1 and len(rp) == 1 and set(names) <= {"take", "repeat"}
+                if ok:
+                    n = tk[0].kids[1].strip()
+                    byte = rp[0].kids[0].strip()
+                    ok = byte.k == "const" and byte.a.get("v") == 32 and any(x.k == "arg" and x.a["name"] == "count" for x in n.walk()) and not any(x.k == "bin" for x in n.walk())
+                    ok = ok and any(x.k == "arg" and x.a["name"] == "out" for x in dst.walk())
+                # the copy's failure is the function's failure
+                ro = prim.origin_of_local(wp, 0)
+                ok = ok and any(c.a["name"] == "copy" for c in ro.call_nodes())
+            ctx.ob("R3", "padding-is-blanks", ok, "write_padding = %s; oracle: exactly `count` bytes 0x20 copied to the output, its error returned" % desc, fn=wp, how="provenance slice")
         # every Ok(content) path writes exactly once: event graph
         def role(t):
             n = t.j.get("callee_name")
